@@ -112,6 +112,34 @@ Theorem C07_checked_key_stable : forall ls s, cm_run ls cm_init = Some s ->
 Proof. exact checked_key_stable. Qed.
 Print Assumptions C07_checked_key_stable.
 
+(* Round 2 - "unchanged ... under concurrent stores, lookups and evictions", at the granularity of this LTS: the copy of
+   the value is made AND finished while the goroutine holds the entry_cm's read lock.  In every reachable state a
+   goroutine that is copying (GCopy) or has copied and not yet unlocked (GUnlockHit) holds a read lock of the entry_cm,
+   no writer holds it (so releaseEntry cannot have cleared it nor a Store refilled it), the entry_cm still carries the
+   looked-up key, and its value is the value being copied / returned, stored under that key. *)
+Theorem C07_copy_under_lock : forall ls s, cm_run ls cm_init = Some s ->
+  forall t k e,
+    (thr s t = GCopy k e ->
+       In t (e_r (ents s e)) /\ e_w (ents s e) = None /\ e_k (ents s e) = k /\
+       exists v, e_v (ents s e) = Some v /\ In (CmStore k v) (trace s)) /\
+    (forall v, thr s t = GUnlockHit k e v ->
+       In t (e_r (ents s e)) /\ e_w (ents s e) = None /\ e_k (ents s e) = k /\
+       e_v (ents s e) = Some v /\ In (CmStore k v) (trace s)).
+Proof. exact copy_under_lock. Qed.
+Print Assumptions C07_copy_under_lock.
+
+(* the linearisation point of a hit is the RUnlock: the step that appends [CmHit k v] is taken from a state in which v
+   is the entry_cm's value under key k and the read lock is still held.  (Values are immutable lists in this model: the
+   pooled buffer UNDER the value - released by releaseEntry, handed to the next Store by the byte pool - is not
+   modelled; that a reader never copies from a buffer after dropping the lock is what this theorem pins in the
+   model, and kind cachechurn tests on the real code.  Tested, not proved: the byte pool itself.) *)
+Theorem C07_hit_is_entry_value : forall ls s, cm_run ls cm_init = Some s ->
+  forall t c k e v s', thr s t = GUnlockHit k e v -> cm_step s (LStep t c) = Some s' ->
+    trace s' = CmHit k v :: trace s /\
+    e_v (ents s e) = Some v /\ e_k (ents s e) = k /\ In t (e_r (ents s e)) /\ e_w (ents s e) = None.
+Proof. exact hit_is_entry_value. Qed.
+Print Assumptions C07_hit_is_entry_value.
+
 (* the quiescent histories replayed against the real MemoryCache are schedules of that system *)
 Theorem C07_big_refines_small : forall os s s', big_run os s = Some s' -> exists ls, cm_run ls s = Some s'.
 Proof. exact big_refines_small. Qed.
